@@ -177,6 +177,7 @@ KEYWORDS = {"as", "break", "const", "continue", "crate", "else", "enum", "extern
 class Parser:
     def __init__(self, toks, fname):
         self.t, self.i, self.fname = toks, 0, fname
+        self.half = False
 
     # -- helpers
     def peek(self, k=0):
@@ -316,14 +317,19 @@ class Parser:
                 ty = self.parse_type()
             except Unsupported:
                 self.i = save
+                self.half = False
                 ty = None
                 depth = 0
                 while not ((self.at(",") or self.at("}")) and depth == 0):
                     t = self.peek()
-                    if t.kind == "punct" and t.val in "([{<":
+                    if t.kind == "punct" and t.val in ("(", "[", "{", "<"):
                         depth += 1
-                    if t.kind == "punct" and t.val in ")]}>":
+                    if t.kind == "punct" and t.val in (")", "]", "}", ">"):
                         depth -= 1
+                    if t.kind == "punct" and t.val == ">>":
+                        depth -= 2
+                    if t.kind == "eof":
+                        self.err("unterminated declaration")
                     self.i += 1
             fields.append((fn, ty))
             if not self.accept(","):
@@ -341,6 +347,7 @@ class Parser:
                 t1 = self.parse_type()
         except Unsupported:
             self.i = save
+            self.half = False
             self.skip_item()
             return
         if self.at("where"):
@@ -379,6 +386,7 @@ class Parser:
                 params.append(("self", ("self",), ref and mut))
             else:
                 self.i = j
+                self.half = False
                 self.accept("mut")
                 try:
                     pn = self.ident()
@@ -388,15 +396,18 @@ class Parser:
                     # signature outside the subset: keep the function as untranslatable
                     pn, pt = None, None
                     self.i = j
+                    self.half = False
                     depth = 0
                     while not (depth == 0 and (self.at(",") or self.at(")"))):
                         t = self.peek()
                         if t.kind == "eof":
                             self.err("unterminated parameter list")
-                        if t.kind == "punct" and t.val in "([{<":
+                        if t.kind == "punct" and t.val in ("(", "[", "{", "<"):
                             depth += 1
-                        if t.kind == "punct" and t.val in ")]}>":
+                        if t.kind == "punct" and t.val in (")", "]", "}", ">"):
                             depth -= 1
+                        if t.kind == "punct" and t.val == ">>":
+                            depth -= 2
                         self.i += 1
                 params.append((pn, pt, False))
             if not self.accept(","):
@@ -411,6 +422,7 @@ class Parser:
             except Unsupported as ex:
                 ret, ret_bad = None, str(ex)
                 self.i = j
+                self.half = False
                 while not (self.at("{") or self.at(";") or self.at("where")):
                     self.i += 1
         if self.at("where"):
@@ -474,8 +486,12 @@ class Parser:
                 if not self.accept(","):
                     break
             if self.at(">>"):
-                # split the token
-                self.t[self.i] = Tok("punct", ">", self.peek().line)
+                # `>>` closes two generic argument lists: the first close takes half of the token
+                if self.half:
+                    self.half = False
+                    self.i += 1
+                else:
+                    self.half = True
             else:
                 self.eat(">")
         if name == "f64":
